@@ -160,6 +160,65 @@ def run_chain(req):
         1 for (who, _k) in w.results if who in ("descendant", "child")), "glets": n}}
 
 
+def run_orphan(req):
+    """A greenlet asks for its OWN stack while its immediate parent is dead or has never been started (the parent
+    created it and returned, or it was created with an unstarted parent): exactly its own portion, as always."""
+    how = req["how"]          # dead | unstarted | dead_below_live
+    depth = req.get("depth", 2)
+    w = World({"chain": []})
+    box = {}
+
+    def child_run():
+        def innermost():
+            outer_fr = sys._getframe()
+
+            def obs():
+                check_target(w, "child", "self-with-%s-parent" % how, extra_tail=[outer_fr, sys._getframe()])
+            obs()
+            return "done"
+        w.shadow.setdefault("child", []).append(sys._getframe())
+        return w.calls("child", depth, innermost)
+
+    if how == "dead":
+        def mid():
+            box["child"] = greenlet.greenlet(child_run)       # parent = mid, which now finishes
+        m = greenlet.greenlet(mid)
+        m.switch()
+        box["parent_dead"] = m.dead
+    elif how == "unstarted":
+        never = greenlet.greenlet(lambda *a: None)
+        box["child"] = greenlet.greenlet(child_run, parent=never)
+        box["parent_dead"] = (not never.dead) and not bool(never)
+    elif how == "dead_below_live":
+        def grand():
+            def mid():
+                box["child"] = greenlet.greenlet(child_run)
+            m = greenlet.greenlet(mid)
+            m.switch()
+            box["parent_dead"] = m.dead
+            box["child"].switch()                             # entered from the live grandparent
+            box["ran"] = True
+        g = greenlet.greenlet(grand)
+        w.glets["child"] = None
+    else:
+        raise AssertionError(how)
+    if how == "dead_below_live":
+        # the child is created inside grand(); register it lazily
+        class Lazy(dict):
+            def __getitem__(self, k):
+                return box["child"] if k == "child" else dict.__getitem__(self, k)
+        w.glets = Lazy()
+        g.switch()
+    else:
+        w.glets["child"] = box["child"]
+        box["child"].switch()
+    if not box.get("parent_dead"):
+        return {"harness_error": "the parent greenlet was not dead/unstarted as intended"}
+    if not w.results and not w.obs:
+        return {"harness_error": "the orphan greenlet did not run its observation"}
+    return {"obs": w.obs[:6], "stats": {"observations": 1, "glets": 2, "from_descendant": 0, "depth": depth}}
+
+
 def run_other_thread(req):
     """Greenlets that live in ANOTHER thread, in every state: that thread's main greenlet while it runs plain code
     (running there -> error, no frames), a child greenlet running there (error, no frames) while the main one is
@@ -425,7 +484,13 @@ def run_greenback_asyncio(req):
     return {"obs": obs[:6], "stats": {"observations": 2, "glets": 0, "from_descendant": 0, "depth": depth}}
 
 
+def _handle_orphan(req):
+    return run_orphan(req)
+
+
 def handle(req):
+    if req["op"] == "green.orphan":
+        return run_orphan(req)
     op = req["op"]
     if op == "green.greenback_asyncio":
         return run_greenback_asyncio(req)
